@@ -42,7 +42,7 @@ TEXT = {
     "C08": dict(
         technique="property-based testing (rapid timing patterns) on a virtual clock (testing/synctest); gap bounds as oracle",
         level_text="Exploration: send/TestRequest instants are generated relative to heartbeat deadlines (just before, at, just after, N/10 around, bursts, long idle) for N in 1..120 over up to 40 periods of virtual time; all outbound gaps must be <= N+N/10 and unsolicited Heartbeats >= N after the previous outbound message. No wall-clock thresholds.",
-        level_note="Trusted: synctest's virtual time. Single logon per history.",
+        level_note="Trusted: synctest's virtual time. Re-logon with another interval is generated for the acceptor only.",
         design_ref="DESIGN.md section 4, C08",
     ),
     "C09": dict(
